@@ -14,7 +14,7 @@ def run(chk, st, tier):
     if not runner:
         return
     small = [s for s in shapes if s.name != "flat24"] or shapes
-    files = R.make_files(chk, runner, small, rng, 14 if tier == "quick" else 200, maxrecs=5, name="C10-files")
+    files = R.make_files(chk, runner, small, rng, 14 if tier == "quick" else 120, maxrecs=5, name="C10-files")
     # fault-free pass: number of source operations of each read
     base_cases = [("p%d" % i, w.shape, f, "plain") for i, (w, f) in enumerate(files)]
     impl0, model0, _, _ = R.run_reads(runner, small, base_cases, "C10-base")
@@ -37,7 +37,9 @@ def run(chk, st, tier):
     for i, (w, f) in enumerate(files):
         for j in range(0, 120):
             mlines.append("m%d_%d read %s %s fail:%d" % (i, j, w.shape.name, C.hexs(f), j))
-    _, model, _, e2 = C.run_cases(mlines, "C10-model", impl_cmd=["true"])
+    _, model, _, e2 = C.run_cases(mlines, "C10-model", impl_cmd=["true"], timeout=3500)
+    if e2[0] != 0:
+        chk.broke("correspondence:C10", "model driver did not finish: rc=%s %s" % (e2[0], e2[1]))
     bad = 0
     outcomes_impl = {}
     for ident, sh, f, m in cases:
@@ -88,3 +90,4 @@ def run(chk, st, tier):
                             "each outcome must be: constructor error, or Error() non-nil with the delivered rows a correct prefix, or no error and exactly the right rows; never a panic. "
                             "The set of (status, rows delivered) outcomes is compared with the model's set over all model-level operations. distinct = distinct (file, k, kind).")
     chk.coverage["explanation"] = "src_fault_safe (coq/props/C10.v) proves the same statement for the reader model for every file (valid or not), schedule and fault position."
+    chk.assumptions += ['model fault granularity is one source operation; implementation faults are injected at every Read/Seek call; the thrift decoder is assumed to propagate a source error']
